@@ -13,6 +13,7 @@ from vlib import gen_json as G, gen_metadata as GM, gen_mutate as MU, gen_pyvalu
 from vlib.ref_canon import canon, jeq
 from vlib import cfgunit as _cfgunit, interrupt as _interrupt
 from vlib.runner import Unit, Violation
+from vlib import interfere as _interfere, interrupt as _interrupt
 
 PROPERTY = "C16"
 LEVEL = "exploration"
@@ -361,4 +362,7 @@ UNITS = [
     _cfgunit.unit_under_config(PROPERTY, 'valid', exclude=('PYTHONWARNINGS', 'TZ')),
     _cfgunit.unit_under_config(PROPERTY, 'corrupt', exclude=('PYTHONWARNINGS',), closed_stdout=True, n_cases=30),
     _interrupt.unit_interrupted(PROPERTY, 'corrupt', quick=30, thorough=750, max_points=120),
+    _interfere.unit_after(PROPERTY, 'corrupt', quick=150, thorough=6000),
+    _interfere.unit_after(PROPERTY, 'valid', quick=150, thorough=6000),
+    _interrupt.unit_interrupted(PROPERTY, 'valid', quick=18, thorough=450, max_points=150),
 ]
